@@ -1,3 +1,166 @@
-import Snmp.Model.Ber
+/-
+  C06 — every response value reaches the caller with the type and value that was sent.
+  Impl side: the index-based x690 mirror (`decodeAt`, lazy nodes, `readNode`) with the registry
+  generated from the working tree; spec side: `Snmp.Spec.readVal` on the same octets.
+  Proved here at the level of a single value TLV anywhere in a datagram, in every admissible
+  definite length form; binding lists / PDUs / messages are tied by correspondence (see DESIGN.md).
+-/
+import Snmp.Lemmas.BerDecode
+import Snmp.Lemmas.BerInt
 namespace Snmp.Props.C06
+open Snmp Snmp.Ber
+
+/-- the value a decoded tree stands for, by registered class -/
+def treeVal : Tree → Option Val
+  | .int "Integer" v => some (.int v)
+  | .int "Counter" v => some (.counter32 v)
+  | .int "Gauge" v => some (.gauge32 v)
+  | .int "TimeTicks" v => some (.ticks v)
+  | .int "Counter64" v => some (.counter64 v)
+  | .int "NsapAddress" v => some (.nsap v)
+  | .str "OctetString" b => some (.str b)
+  | .str "Opaque" b => some (.opaque b)
+  | .str "IpAddress" b => some (.ip b)
+  | .null => some .null
+  | .oid o => some (.oid o)
+  | .marker "NoSuchObject" => some .noSuchObject
+  | .marker "NoSuchInstance" => some .noSuchInstance
+  | .marker "EndOfMibView" => some .endOfMibView
+  | _ => none
+
+/-- application types and exception markers are registered with the right class, nature and
+    signedness (generated registry) -/
+theorem C06_registry :
+    lookup 2 = ⟨"Integer", "int", true⟩ ∧ lookup 4 = ⟨"OctetString", "str", false⟩ ∧
+    lookup 5 = ⟨"Null", "null", false⟩ ∧ lookup 6 = ⟨"ObjectIdentifier", "oid", false⟩ ∧
+    lookup 64 = ⟨"IpAddress", "ip", false⟩ ∧ lookup 65 = ⟨"Counter", "int", false⟩ ∧
+    lookup 66 = ⟨"Gauge", "int", false⟩ ∧ lookup 67 = ⟨"TimeTicks", "int", false⟩ ∧
+    lookup 68 = ⟨"Opaque", "str", false⟩ ∧ lookup 69 = ⟨"NsapAddress", "int", true⟩ ∧
+    lookup 70 = ⟨"Counter64", "int", false⟩ ∧ lookup 128 = ⟨"NoSuchObject", "marker", false⟩ ∧
+    lookup 129 = ⟨"NoSuchInstance", "marker", false⟩ ∧ lookup 130 = ⟨"EndOfMibView", "marker", false⟩ ∧
+    lookup 48 = ⟨"Sequence", "seq", false⟩ ∧ lookup 162 = ⟨"GetResponse", "pdu", false⟩ ∧
+    lookup 168 = ⟨"Report", "pdu", false⟩ := by decide
+
+/-- Counter32 / Gauge32 / TimeTicks / Counter64 content is read unsigned whatever its leading bit:
+    the decoded value is the plain big-endian number and never negative. -/
+theorem C06_unsigned (bs : Bytes) : intDecode false bs = (fromBE bs : Int) ∧ 0 ≤ intDecode false bs :=
+  intDecode_unsigned bs
+
+/-- proper non-negative INTEGER content (leading bit clear) reads the same signed and unsigned -/
+theorem unsigned_eq_signed (c : Bytes) (h : ∀ b rest, c = b :: rest → b < 128) :
+    intDecode false c = intDecode true c := by
+  cases c with
+  | nil => rfl
+  | cons b rest =>
+    have := h b rest rfl
+    have hn : ¬ 128 ≤ b := by omega
+    simp [intDecode, hn]
+
+/-- the conditions under which the library and the RFC reading of a value TLV coincide: OID
+    content starts with an octet below 120 (arc0 ≤ 2, arc1 < 40 — what x690 can unpack), and
+    unsigned application integers are proper non-negative INTEGER encodings -/
+def InDomain (t : Nat) (c : Bytes) : Prop :=
+  (t = 6 → ∀ d0 rest, c = d0 :: rest → d0 < 120) ∧
+  ((t = 65 ∨ t = 66 ∨ t = 67 ∨ t = 70) → ∀ b rest, c = b :: rest → b < 128)
+
+/-- Every well-formed value — INTEGER, OCTET STRING, NULL, OBJECT IDENTIFIER, IpAddress,
+    Counter32, Gauge32, TimeTicks, Opaque, Counter64, the three exception markers — written in
+    ANY admissible definite length form (minimal, or long form with 1..126 length octets, also
+    non-minimal) anywhere in a datagram, is decoded to the registered class with exactly the
+    value the specification reader reads from the same octets; and the next TLV starts right
+    behind it. -/
+theorem C06_value_decode (f : LenForm) (t : Nat) (c pre rest : Bytes) (v : Val)
+    (hf : f.ok c.length) (hspec : Spec.readVal t c = some v) (hdom : InDomain t c) (fuel depth : Nat) :
+    ∃ n, decodeAt (pre ++ Spec.tlv f t c ++ rest) pre.length = .ok (n, pre.length + (Spec.tlv f t c).length) ∧
+      (readNode (pre ++ Spec.tlv f t c ++ rest) fuel (depth + 1) n).toOption.bind treeVal = some v := by
+  have ht : t ≠ 255 := by
+    intro h; subst h; simp [Spec.readVal] at hspec
+  rcases decodeAt_spec f t c pre rest hf ht with ⟨n, hdec, hentry, htag, hcont⟩
+  refine ⟨n, hdec, ?_⟩
+  obtain ⟨r2, r4, r5, r6, r64, r65, r66, r67, r68, r69, r70, r128, r129, r130, _, _, _⟩ := C06_registry
+  have hk : ∀ e, lookup t = e → n.entry = e := fun e he => by rw [hentry, he]
+  -- case analysis on the identifier octet, driven by the specification reader
+  unfold Spec.readVal at hspec
+  split at hspec
+  · -- INTEGER
+    rw [readNode_int _ _ _ n (by rw [hk _ r2])]; (try rw [hcont]); (try rw [hk _ r2])
+    simp only [Spec.readInt] at hspec
+    by_cases hc : c = []
+    · simp [hc] at hspec
+    · simp only [hc, ↓reduceIte, Option.map_some, Option.some.injEq] at hspec
+      simp [Except.toOption, treeVal, hspec]
+  · rw [readNode_str _ _ _ n (by rw [hk _ r4])]; (try rw [hcont]); (try rw [hk _ r4]); simp at hspec; simp [Except.toOption, treeVal, hspec]
+  · rw [readNode_null _ _ _ n (by rw [hk _ r5])]; (try rw [hcont]); (try rw [hk _ r5])
+    by_cases hc : c = [] <;> simp [hc] at hspec
+    simp [Except.toOption, treeVal, hspec]
+  · -- OBJECT IDENTIFIER
+    rw [readNode_oid _ _ _ n (by rw [hk _ r6])]; (try rw [hcont]); (try rw [hk _ r6])
+    cases ho : Spec.readOid c with
+    | none => simp [ho] at hspec
+    | some o =>
+      simp only [ho, Option.map_some, Option.some.injEq] at hspec
+      rw [oidDecode_eq_readOid c o (hdom.1 rfl) ho]
+      simp [Except.map, Except.toOption, treeVal, hspec]
+  · rw [readNode_ip _ _ _ n (by rw [hk _ r64])]; (try rw [hcont]); (try rw [hk _ r64]); simp at hspec; simp [Except.toOption, treeVal, hspec]
+  · -- Counter32
+    rw [readNode_int _ _ _ n (by rw [hk _ r65])]; (try rw [hcont]); (try rw [hk _ r65])
+    simp only [Spec.readInt] at hspec
+    by_cases hc : c = []
+    · simp [hc] at hspec
+    · simp only [hc, ↓reduceIte, Option.map_some, Option.some.injEq] at hspec
+      rw [unsigned_eq_signed c (hdom.2 (Or.inl rfl))]
+      simp [Except.toOption, treeVal, hspec]
+  · rw [readNode_int _ _ _ n (by rw [hk _ r66])]; (try rw [hcont]); (try rw [hk _ r66])
+    simp only [Spec.readInt] at hspec
+    by_cases hc : c = []
+    · simp [hc] at hspec
+    · simp only [hc, ↓reduceIte, Option.map_some, Option.some.injEq] at hspec
+      rw [unsigned_eq_signed c (hdom.2 (Or.inr (Or.inl rfl)))]
+      simp [Except.toOption, treeVal, hspec]
+  · rw [readNode_int _ _ _ n (by rw [hk _ r67])]; (try rw [hcont]); (try rw [hk _ r67])
+    simp only [Spec.readInt] at hspec
+    by_cases hc : c = []
+    · simp [hc] at hspec
+    · simp only [hc, ↓reduceIte, Option.map_some, Option.some.injEq] at hspec
+      rw [unsigned_eq_signed c (hdom.2 (Or.inr (Or.inr (Or.inl rfl))))]
+      simp [Except.toOption, treeVal, hspec]
+  · rw [readNode_str _ _ _ n (by rw [hk _ r68])]; (try rw [hcont]); (try rw [hk _ r68]); simp at hspec; simp [Except.toOption, treeVal, hspec]
+  · rw [readNode_int _ _ _ n (by rw [hk _ r69])]; (try rw [hcont]); (try rw [hk _ r69])
+    simp only [Spec.readInt] at hspec
+    by_cases hc : c = []
+    · simp [hc] at hspec
+    · simp only [hc, ↓reduceIte, Option.map_some, Option.some.injEq] at hspec
+      simp [Except.toOption, treeVal, hspec]
+  · rw [readNode_int _ _ _ n (by rw [hk _ r70])]; (try rw [hcont]); (try rw [hk _ r70])
+    simp only [Spec.readInt] at hspec
+    by_cases hc : c = []
+    · simp [hc] at hspec
+    · simp only [hc, ↓reduceIte, Option.map_some, Option.some.injEq] at hspec
+      rw [unsigned_eq_signed c (hdom.2 (Or.inr (Or.inr (Or.inr rfl))))]
+      simp [Except.toOption, treeVal, hspec]
+  · rw [readNode_marker _ _ _ n (by rw [hk _ r128])]; (try rw [hcont]); (try rw [hk _ r128])
+    by_cases hc : c = [] <;> simp [hc] at hspec
+    simp [Except.toOption, treeVal, hspec]
+  · rw [readNode_marker _ _ _ n (by rw [hk _ r129])]; (try rw [hcont]); (try rw [hk _ r129])
+    by_cases hc : c = [] <;> simp [hc] at hspec
+    simp [Except.toOption, treeVal, hspec]
+  · rw [readNode_marker _ _ _ n (by rw [hk _ r130])]; (try rw [hcont]); (try rw [hk _ r130])
+    by_cases hc : c = [] <;> simp [hc] at hspec
+    simp [Except.toOption, treeVal, hspec]
+  · cases hspec
+
+/-- Re-encoding a decoded primitive value (`bytes(obj)`: received content octets re-used, length
+    re-encoded by `encode_length`) is read by the specification reader as the same tag and
+    content — the same value, possibly in another length form. -/
+theorem C06_reencode_value (t : Nat) (c rest : Bytes) (hc : Spec.Small c.length) :
+    Spec.readTLV (Ber.tlv t c ++ rest) = some (t, c, rest) := Spec.readTLV_tlv t c rest hc
+
+/- non-vacuity: a Gauge32 with its top bit set, written with a 3-octet long-form length -/
+example : LenForm.ok (.long 3) 4 ∧ Spec.readVal 66 [0, 255, 255, 255] = some (.gauge32 16777215) ∧
+    InDomain 66 [0, 255, 255, 255] := by
+  refine ⟨by simp [LenForm.ok], by decide, ?_⟩
+  constructor
+  · intro h; cases h
+  · intro _ b rest h; cases h; omega
+
 end Snmp.Props.C06
